@@ -128,8 +128,110 @@ def run(ctx, ck):
     gfl = ctx.flow(g)
     # the grid: what feeds self.near_field_coord (possibly built by a private helper)
     asg = assigns_to_attr(g, 'self.near_field_coord')
-    if len(asg) != 1:
+    if not asg:
+        gp_ = m.resolve_method('Mininec', 'near_field_coord')
+        if gp_ is not None and gp_.kind in ('property', 'cached_property'):
+            # the grid is derived on demand by a property: judged there
+            check_grid_property(ctx, ck, g, gp_)
+            asg = None
+    if asg is not None and len(asg) != 1:
         raise AnalysisError('compute_near_field assigns self.near_field_coord %d times' % len(asg))
+    if asg is not None:
+        check_grid_assignment(ctx, ck, g, gfl, asg)
+    check_grid_tables(ctx, ck, g, gfl)
+
+
+def check_grid_property(ctx, ck, g, gp):
+    """the near-field grid as a property: count based axes from self.nf_param (stored from start, inc, nvec by
+    compute_near_field) and the full Cartesian product of the three axes - by one meshgrid, or row by row as
+    tile(repeat(axis, R), T) with R, T the products of the lengths of the faster / slower axes"""
+    m = ctx.model
+    pfl = ctx.flow(gp)
+    n2 = check_builder(ctx, ck, gp.qual, ('n', 'nvec', 'nf_param', 'count'))
+    ck.floor('range constructions feeding the near-field grid', n2, 1)
+    rets = [r_ for r_ in walk_no_nested(gp.node) if isinstance(r_, ast.Return) and r_.value is not None]
+    if len(rets) != 1:
+        raise AnalysisError('%s: expected one return' % gp.qual)
+    r = pfl.roots(rets[0].value, pfl.node_id_of(rets[0]))
+    gfl = ctx.flow(g)
+    stored = set()
+    for a in assigns_to_attr(g, 'self.nf_param'):
+        stored |= {x for x in gfl.roots(a.value, gfl.node_id_of(a)) if x[0] == 'param'}
+    need = {('param', 'start'), ('param', 'inc'), ('param', 'nvec')}
+    okr = ('attr', 'self.nf_param') in r and need <= stored
+    ck.ob('R-GRID.affine', NF + '|grid-from-request', okr, gp.loc(rets[0]),
+          'near_field_coord derived from nf_param = (start, inc, nvec)' if okr else
+          'the grid is not derived from the requested start, inc, nvec (roots %s; nf_param from %s)' % (
+              sorted(x for x in r if x[0] == 'attr')[:4], sorted(stored)))
+    if gp.kind == 'cached_property':
+        ck.ob('R-GRID.affine', NF + '|grid-not-cached', False, gp.loc(),
+              'the grid is cached on the object although nf_param changes with every request')
+    mg = [c for c in ast.walk(gp.node) if isinstance(c, ast.Call) and (dotted(c.func) or '').endswith('meshgrid')]
+    if len(mg) == 1:
+        ck.ob('R-GRID.affine', NF + '|meshgrid', True, gp.loc(), 'full Cartesian product of the three axes')
+        return
+    # row by row
+    e = pfl.inline(rets[0].value, pfl.node_id_of(rets[0]), depth=1)
+    arr = e.args[0] if isinstance(e, ast.Call) and (dotted(e.func) or '').endswith('array') and e.args else None
+    if not isinstance(arr, (ast.List, ast.Tuple)) or len(arr.elts) != 3:
+        raise AnalysisError('%s: the grid is neither one meshgrid nor an array of three rows (%s)' % (gp.qual, norm(e)[:80]))
+    from ..dataflow import product_of
+
+    def factors(x, at):
+        x = pfl.inline(x, at, depth=3)
+        pr = product_of(x)
+        if pr.den or pr.coef != 1:
+            return None
+        return sorted(t for t, n_ in pr.num)
+
+    def parse(x):
+        """(axis text, R factors, T factors, note) of tile(repeat(axis, R), T)"""
+        at = pfl.node_id_of(rets[0])
+        if isinstance(x, ast.Call) and (dotted(x.func) or '') in ('np.tile', 'numpy.tile') and len(x.args) == 2:
+            a, R, T, note = parse(x.args[0])
+            f_ = factors(x.args[1], at)
+            return a, R, (T + f_) if f_ is not None and T is not None else None, note
+        if isinstance(x, ast.Call) and (dotted(x.func) or '') in ('np.repeat', 'numpy.repeat') and len(x.args) == 2 and not x.keywords:
+            a, R, T, note = parse(x.args[0])
+            f_ = factors(x.args[1], at)
+            if T:
+                note = note or 'the elements of an already tiled sequence are repeated: %s' % norm(x)[:70]
+            return a, (R + f_) if f_ is not None and R is not None else None, T, note
+        return norm(x), [], [], None
+    rows = [parse(x) for x in arr.elts]
+    if any(R is None or T is None for a, R, T, note in rows):
+        raise AnalysisError('%s: repetition counts of the grid rows are not understood' % gp.qual)
+    axes = [a for a, R, T, note in rows]
+    bad = next((note for a, R, T, note in rows if note), None)
+    if bad is None and len(set(axes)) != 3:
+        bad = 'the three rows are not built from three different axes (%s)' % axes
+    if bad is None:
+        # lengths as written: len(axis) (through locals nx = len(xs))
+        def ln(a):
+            return 'len(%s)' % a
+        ok_perm = False
+        import itertools
+        for perm in itertools.permutations(range(3)):
+            good = True
+            faster = []
+            for pos, i in enumerate(perm):
+                a, R, T, note = rows[i]
+                slower = [ln(rows[j][0]) for j in perm[pos + 1:]]
+                if sorted(R) != sorted(faster) or sorted(T) != sorted(slower):
+                    good = False
+                    break
+                faster = faster + [ln(a)]
+            ok_perm = ok_perm or good
+        if not ok_perm:
+            bad = 'the rows %s are not the three coordinates of the Cartesian product of the axes: each must be ' \
+                  'tile(repeat(axis, product of the faster axes), product of the slower axes)' % [
+                      (a, '*'.join(R) or '1', '*'.join(T) or '1') for a, R, T, note in rows]
+    ck.ob('R-GRID.affine', NF + '|meshgrid', bad is None, gp.loc(rets[0]),
+          'full Cartesian product of the three axes (row-wise tile / repeat)' if bad is None else bad)
+
+
+def check_grid_assignment(ctx, ck, g, gfl, asg):
+    m = ctx.model
     from ..model import enclosing_stmt
     from ..rules import self_closure
     builders = [g]
@@ -183,6 +285,10 @@ def run(ctx, ck):
           (dotted(c.func) or '').endswith('meshgrid') and (b is not g or c.lineno <= asg[0].end_lineno)]
     ck.ob('R-GRID.affine', NF + '|meshgrid', len(mg) == 1, g.loc(asg[0]), 'full Cartesian product of the three axes')
 
+
+
+def check_grid_tables(ctx, ck, g, gfl):
+    m = ctx.model
     # ---------------------------------------------------------------- D2
     it = m.func('mininec.Mininec.near_field_iter')
     from ..rules import yields_each_of
